@@ -360,16 +360,18 @@ theorem bce_value (H : Heap ℝ) (p t : Nat) (n : Nat) (hp : p < H.size) (ht : t
   obtain ⟨l', H11, h11⟩ := ran_scale l10 (Scalar.neg Scalar.one : ℝ)
   have wl : (H11.val l').WF := by rw [h11.val]; exact wf_map hZ hd _
   obtain ⟨r, H12, h12⟩ := ran_hAlong .mean l' 0 H11 _ (C12.vAlong_rank1 .mean (H11.val l') n (by rw [h11.val]) wl)
-  have hall := ran_bind h1 (ran_bind h2 (ran_bind h3 (ran_bind h4 (ran_bind h5 (ran_bind h6 (ran_bind h7
-    (ran_bind h8 (ran_bind h9 (ran_bind h10 (ran_bind h11 h12))))))))))
-  refine ⟨r, H12, ?_, hall.ext, ?_⟩
+  have hext : Extends H H12 := h1.ext.trans (h2.ext.trans (h3.ext.trans (h4.ext.trans (h5.ext.trans (h6.ext.trans
+    (h7.ext.trans (h8.ext.trans (h9.ext.trans (h10.ext.trans (h11.ext.trans h12.ext))))))))))
+  refine ⟨r, H12, ?_, hext, ?_⟩
   · unfold lossCompute
     rw [bind_run (show (getHeap : HM ℝ (Heap ℝ)) H = .ok (H, H) from rfl)]
     have hv : lossValid H Loss.bce (some p) (some t) = .ok (p, t) := by
       simp [lossValid, dp, dt]
     rw [bind_run (show (liftOut (lossValid H Loss.bce (some p) (some t)) : HM ℝ (Nat × Nat)) H = .ok ((p, t), H) by rw [hv]; rfl)]
     simp only []
-    exact hall.run
+    rw [bind_run h1.run, bind_run h2.run, bind_run h3.run, bind_run h4.run, bind_run h5.run, bind_run h6.run,
+      bind_run h7.run, bind_run h8.run, bind_run h9.run, bind_run h10.run, bind_run h11.run]
+    exact h12.run
   · rw [h12.val, h11.val]
     congr 2
     simp only [Reducer.fn, Tensor.mean, Tensor.avg, tensor_sum, Tensor.numElems, prod, div_eq, ofNat_eq]
